@@ -263,6 +263,7 @@ def run(ctx) -> None:
 
     runs: dict[str, list[Path]] = {}
     stops: dict[str, list[Path]] = {}
+    ALL_ENTRY_PATHS: list[Path] = []
     npaths = 0
     for T in thread_classes:
         rf = P.find_method(T, "run")
@@ -308,9 +309,11 @@ def run(ctx) -> None:
             continue
         ps = Enumerator(deep_cfg(P, eb)).run(fi, selfcls=cname)
         npaths += len(ps)
+        ALL_ENTRY_PATHS.extend(ps)
         absorb(ps, f"{cname}.{m}")
     ctx.count("paths", npaths)
     ctx.count("thread_classes", len(runs))
+    ctx._all_paths = [p for v in runs.values() for p in v] + [p for v in stops.values() for p in v] + list(ALL_ENTRY_PATHS)
     ctx.extra["locks"] = sorted(locks_seen)
     ctx.extra["lock_order_edges"] = sorted(f"{a} -> {b}   [{w}]" for (a, b), w in edges.items())
 
@@ -550,6 +553,26 @@ VARIANTS = [
 
 
 def thorough(ctx):
+    import json
+    import os
+
+    from ..mypy_xcheck import xcheck
+    from ..report import EVIDENCE_DIR
     from ..selftest import thorough as st
 
-    return st(ctx, VARIANTS)
+    rc = st(ctx, VARIANTS)
+    paths = getattr(ctx, "_all_paths", [])
+    res = xcheck(ctx.P, paths)
+    path = os.path.join(EVIDENCE_DIR, f"{ctx.prop_id}.json")
+    ev = json.load(open(path))
+    ev["coverage"]["mypy_call_edge_cross_check"] = res
+    json.dump(ev, open(path, "w"), indent=1, default=str)
+    if not res.get("available"):
+        print(f"C06 mypy cross-check skipped: {res.get('why')}")
+        return rc
+    print(f"C06 mypy cross-check: {res['inlined_call_sites']} inlined call sites, {res['checked_against_mypy']} typed by mypy, {res['agreed']} agree, {len(res['disagreements'])} disagree")
+    if res["disagreements"]:
+        for d in res["disagreements"]:
+            print(f"ANALYSIS-ERROR property=C06: call resolution disagrees with mypy at {d['site']} ({d['call']}): analyser {d['analyser']}, mypy {d['mypy']}")
+        return 2
+    return rc
